@@ -63,7 +63,7 @@ def floors(tier):
             'ascii_checked': 10000, 'fail_policy_decided': 5000, 'fail_policy_raised': 200,
             'histkeys:scheme': 5, 'histkeys:ruleset': 2, 'histkeys:policy': 5, 'k1_witness_checked': 5,
             'codepoints_probed_alone': 1000, 'module_function_calls': 5000, 'module_fail_policy_raised': 100,
-            'legacy_function_calls': 5000, 'legacy_fail_raised': 500, 'histkeys:legacy_flags': 16}
+            'legacy_function_calls': 5000, 'partial_encoders_built_on_the_shared_rule_list': 2000, 'legacy_fail_raised': 500, 'histkeys:legacy_flags': 16}
 
 
 def setup(rec):
@@ -120,12 +120,23 @@ def k1_codepoints(s, ruleset):
             if 0x300 <= ord(c) <= 0x36f and ord(c) in tab and _BARE_MACRO.match(tab[ord(c)])]
 
 
+SHARED_RULE_LISTS = {}
+
+
 def evaluate(s, ruleset, scheme, policy, rec):
     """Returns (error or None)."""
     tab = table(ruleset)
     ns = unicodedata.normalize('NFC', s)
     try:
-        enc = UnicodeToLatexEncoder(conversion_rules=[ruleset], replacement_latex_protection=scheme,
+        # callers keep their rule list around: the same list object configures every encoder of the process, now and then
+        # also a PartialLatexToLatexEncoder (which adds a rule of its own in front of the ones it is given)
+        shared = SHARED_RULE_LISTS.setdefault(ruleset, [ruleset])
+        if len(s) % 7 == 3:
+            from pylatexenc.latexencode import PartialLatexToLatexEncoder
+            PartialLatexToLatexEncoder(conversion_rules=shared, replacement_latex_protection=scheme,
+                                       unknown_char_policy=('keep' if policy == 'fail' else policy)).unicode_to_latex(s[:3])
+            rec.monitor('partial_encoders_built_on_the_shared_rule_list')
+        enc = UnicodeToLatexEncoder(conversion_rules=shared, replacement_latex_protection=scheme,
                                     unknown_char_policy=policy, unknown_char_warning=(len(s) % 3 == 1),
                                     latex_string_class=Chunks)
         res = enc.unicode_to_latex(s)
